@@ -68,9 +68,7 @@ def digitsVal (ds : Text) : Nat := ds.foldl (fun acc d => acc * 10 + (d - 48)) 0
 
 /-- `u32::from_str`: an optional `+`, at least one ASCII digit, nothing else, value below 2³² -/
 def parseU32 (s : Text) : Option Nat :=
-  let ds := match s with
-    | 43 :: rest => rest
-    | _ => s
+  let ds := if s.head? == some 43 then s.tail else s
   if ds.isEmpty then none
   else if ds.all isDigit then
     (if digitsVal ds < 4294967296 then some (digitsVal ds) else none)
